@@ -21,6 +21,19 @@ CLAIMED = {
              "Python slice semantics, cross-checked on a real file each run); CrossHair's Python "
              "semantics; the pure-Python slice.indices model (validated exhaustively on a grid).",
         ref="3 C06"),
+    "C09": dict(
+        text="For the complete prefix x unit x power tables read from the tree (21 x 31 x 7): every "
+             "combination is atomic SI and split() returns exactly its parts; scaling equals the "
+             "prefix-factor ratio to the power (rel 1e-12) and inverts; scalable <=> same unit and "
+             "power, otherwise scaling refuses; products/quotients are recognised as compound; the "
+             "sanitizer is idempotent on all strings over a 6-letter alphabet up to length 4/6. "
+             "Table indices are symbolic selectors decided by z3, partitioned by one concrete index.",
+        note="Strings reaching `re` are concrete per path (symbolic strings inside the regex engine "
+             "do not terminate), so the solver's role is deciding the index selectors over the "
+             "stated finite domain; quick tier restricts scaling/scalable to the colliding units "
+             "(V, m, mol, S, Sv, W), thorough covers all 31. CPython float arithmetic is executed "
+             "concretely per path.",
+        ref="3 C09"),
 }
 
 NOT_APPLICABLE = {
